@@ -9,6 +9,8 @@ import copy
 
 import torch
 
+from ..market import outside_price_domain
+
 from ..core import History, Inconclusive, Stats, Violation, bit_equal, thash
 from ..gen import (gen_price_scale, PATH_DEPENDENT, STOCK_KINDS, bs_ok, features_for, gen_barrier, gen_derivative, gen_feature_set,
                    gen_hedger, gen_primary)
@@ -172,6 +174,10 @@ def _execute(program, stats, hist):
             if raised:
                 stats.probe("earlier_pass_aborted")
             hist.add(op=name, raised=raised)
+            continue
+        if outside_price_domain(world):
+            stats.ambiguous_skipped += 1
+            hist.add(op=name, skipped="non-positive price")
             continue
         gen = torch.Generator()
         gen.manual_seed(op["seed"])
